@@ -334,7 +334,9 @@ pub mod subiter {
                 k += 1;
             }
             kani::cover!(cnt >= 2, "several matches");
-            kani::cover!(cnt == 0, "no match");
+            if NLEN > 0 {
+                kani::cover!(cnt == 0, "no match");
+            }
         } else {
             let mut want = [usize::MAX; 12];
             let mut cnt = 0;
@@ -359,20 +361,22 @@ pub mod subiter {
                 k += 1;
             }
             kani::cover!(cnt >= 2, "several matches");
-            kani::cover!(cnt == 0, "no match");
+            if NLEN > 0 {
+                kani::cover!(cnt == 0, "no match");
+            }
         }
     }
 }
 
 inst!(fi_step_n0, [props=C08+C14 tier=quick cfg=x86std t=900 role=find-iter-step uw=@RK;@TWNEW;@TWOFF;with_ranker:6;oracle:6], 3, subiter::find_step::<0, 12>(1, 0, 12));
 inst!(fi_step_n1, [props=C08 xprops=C14 tier=quick cfg=x86std t=1500 role=find-iter-step uw=@RK;@TWNEW;@TWOFF;with_ranker:6;oracle:6;@MEMCHR], 3, subiter::find_step::<1, 12>(1, 12, 12));
-inst!(fi_step_n2_rk, [props=C08+C14 xprops=C05 tier=quick cfg=x86std+generic t=1500 role=find-iter-step uw=@RK;@TWNEW;@TWOFF;with_ranker:6;oracle:6;@PP], 3, subiter::find_step::<2, 9>(1, 0, 9));
+inst!(fi_step_n2_rk, [props=C08+C14 xprops=C05 tier=quick cfg=x86std t=1500 role=find-iter-step uw=@RK;@TWNEW;@TWOFF;with_ranker:6;oracle:6;@PP], 3, subiter::find_step::<2, 9>(1, 0, 9));
 inst!(fri_step_n0, [props=C08+C14 tier=quick cfg=x86std t=900 role=rfind-iter-step uw=@RK;@TWNEW;@TWOFF;with_ranker:6;oracle:6], 3, subiter::rfind_step::<0, 12>(0, 12));
-inst!(fri_step_n2_rk, [props=C08 xprops=C05+C14 tier=quick cfg=x86std+generic t=1500 role=rfind-iter-step uw=@RK;@TWNEW;@TWOFF;with_ranker:6;oracle:6], 3, subiter::rfind_step::<2, 9>(0, 9));
+inst!(fri_step_n2_rk, [props=C08 xprops=C05+C14 tier=quick cfg=generic t=1500 role=rfind-iter-step uw=@RK;@TWNEW;@TWOFF;with_ranker:6;oracle:6], 3, subiter::rfind_step::<2, 9>(0, 9));
 inst!(fi_trav_n0_5, [props=C08 xprops=C14 tier=quick cfg=x86std t=1500 role=find-iter-traversal uw=traverse:10;naive:8;@RK;@TWNEW;@TWOFF;with_ranker:6;oracle:6], 3, subiter::traverse::<0, 5>(false, false));
-inst!(fi_trav_n2_5, [props=C08 xprops=C14 tier=quick cfg=x86std t=1500 role=find-iter-traversal uw=traverse:11;naive:9;@RK;@TWNEW;@TWOFF;with_ranker:6;oracle:6;@PP], 3, subiter::traverse::<2, 5>(false, true));
+inst!(fi_trav_n2_4, [props=C08 xprops=C14 tier=quick cfg=x86std t=1500 role=find-iter-traversal uw=traverse:11;naive:9;@RK;@TWNEW;@TWOFF;with_ranker:6;oracle:6;@PP], 3, subiter::traverse::<2, 4>(false, true));
 inst!(fri_trav_n0_5, [props=C08 xprops=C14 tier=quick cfg=x86std t=1500 role=rfind-iter-traversal uw=traverse:10;naive:8;@RK;@TWNEW;@TWOFF;with_ranker:6;oracle:6], 3, subiter::traverse::<0, 5>(true, true));
-inst!(fri_trav_n2_5, [props=C08 xprops=C14 tier=quick cfg=x86std t=1500 role=rfind-iter-traversal uw=traverse:11;naive:9;@RK;@TWNEW;@TWOFF;with_ranker:6;oracle:6;@PP], 3, subiter::traverse::<2, 5>(true, false));
+inst!(fri_trav_n2_4, [props=C08 xprops=C14 tier=quick cfg=x86std t=1500 role=rfind-iter-traversal uw=traverse:11;naive:9;@RK;@TWNEW;@TWOFF;with_ranker:6;oracle:6;@PP], 3, subiter::traverse::<2, 4>(true, false));
 inst!(fi_trav_n1_7, [props=C08 xprops=C14 tier=thorough cfg=x86std t=3600 role=find-iter-traversal uw=traverse:12;naive:10;@RK;@TWNEW;@TWOFF;with_ranker:6;oracle:6;@MEMCHR], 3, subiter::traverse::<1, 7>(false, false));
 inst!(fi_trav_n3_8, [props=C08 xprops=C14 tier=thorough cfg=x86std t=3600 role=find-iter-traversal uw=traverse:13;naive:11;@RK;@TWNEW;@TWOFF;with_ranker:6;oracle:6;@PP], 3, subiter::traverse::<3, 8>(false, true));
 inst!(fri_trav_n3_8, [props=C08 xprops=C14 tier=thorough cfg=x86std t=3600 role=rfind-iter-traversal uw=traverse:13;naive:11;@RK;@TWNEW;@TWOFF;with_ranker:6;oracle:6;@PP], 3, subiter::traverse::<3, 8>(true, true));
@@ -414,7 +418,7 @@ pub mod purity {
 
     /// clone / as_ref / into_owned behave like the original, and the owned
     /// finder survives the original needle buffer.
-    pub fn copies<const NLEN: usize, const HCAP: usize>(mode: u8, rev: bool) {
+    pub fn copies<const NLEN: usize, const HCAP: usize>(mode: u8, rev: bool, mask: u8) {
         force(mode);
         let (hb, hlen) = sym_hay::<HCAP>(0, HCAP);
         let h = place(&hb.0[..hlen]);
@@ -425,10 +429,14 @@ pub mod purity {
                 let f = memmem::FinderRev::new(&nb_inner[..]);
                 let r0 = f.rfind(h);
                 check_rightmost(h, &nb_inner[..], r0);
-                let c = f.clone();
-                assert!(c.rfind(h) == r0, "oracle: clone() answers differently");
-                let a = f.as_ref();
-                assert!(a.rfind(h) == r0, "oracle: as_ref() answers differently");
+                if mask & 1 != 0 {
+                    let c = f.clone();
+                    assert!(c.rfind(h) == r0, "oracle: clone() answers differently");
+                }
+                if mask & 2 != 0 {
+                    let a = f.as_ref();
+                    assert!(a.rfind(h) == r0, "oracle: as_ref() answers differently");
+                }
                 let o = f.into_owned();
                 assert!(o.rfind(h) == r0, "oracle: into_owned() answers differently");
                 o
@@ -448,10 +456,14 @@ pub mod purity {
                 let f = memmem::Finder::new(&nb_inner[..]);
                 let r0 = f.find(h);
                 check_leftmost(h, &nb_inner[..], r0);
-                let c = f.clone();
-                assert!(c.find(h) == r0, "oracle: clone() answers differently");
-                let a = f.as_ref();
-                assert!(a.find(h) == r0, "oracle: as_ref() answers differently");
+                if mask & 1 != 0 {
+                    let c = f.clone();
+                    assert!(c.find(h) == r0, "oracle: clone() answers differently");
+                }
+                if mask & 2 != 0 {
+                    let a = f.as_ref();
+                    assert!(a.find(h) == r0, "oracle: as_ref() answers differently");
+                }
                 let o = f.into_owned();
                 assert!(o.find(h) == r0, "oracle: into_owned() answers differently");
                 o
@@ -520,17 +532,17 @@ inst!(pur_two_fwd_n2, [props=C16 xprops=C14 tier=quick cfg=x86std t=1500 role=tw
 #[cfg(not(vcfg_x86none))]
 inst!(pur_two_rev_n2, [props=C16 xprops=C14 tier=quick cfg=x86std t=1500 role=two-searches uw=@RK;@TWNEW;@TWOFF;with_ranker:6;oracle:6;@PP;clone:6;from:6], 3, purity::two_searches::<2, 6, 8>(1, true));
 #[cfg(not(vcfg_x86none))]
-inst!(pur_copies_fwd_n2, [props=C16 xprops=C14 tier=quick cfg=x86std t=1500 role=finder-copies uw=@RK;@TWNEW;@TWOFF;with_ranker:6;oracle:6;@PP;clone:6;from:6], 3, purity::copies::<2, 5>(1, false));
+inst!(pur_copies_fwd_n2, [props=C16 xprops=C14 tier=thorough cfg=x86std t=1500 role=finder-copies uw=@RK;@TWNEW;@TWOFF;with_ranker:6;oracle:6;@PP;clone:6;from:6], 3, purity::copies::<2, 5>(1, false, 7));
 #[cfg(not(vcfg_x86none))]
-inst!(pur_copies_rev_n2, [props=C16 xprops=C14 tier=quick cfg=x86std t=1500 role=finder-copies uw=@RK;@TWNEW;@TWOFF;with_ranker:6;oracle:6;@PP;clone:6;from:6], 3, purity::copies::<2, 5>(1, true));
+inst!(pur_copies_rev_n2, [props=C16 xprops=C14 tier=thorough cfg=x86std t=1500 role=finder-copies uw=@RK;@TWNEW;@TWOFF;with_ranker:6;oracle:6;@PP;clone:6;from:6], 3, purity::copies::<2, 5>(1, true, 7));
 #[cfg(not(vcfg_x86none))]
 inst!(pur_iter_copies_fwd_n0, [props=C16 xprops=C14 tier=quick cfg=x86std t=1500 role=iterator-copies uw=@RK;@TWNEW;@TWOFF;with_ranker:6;oracle:6;@PP;clone:6;from:6], 3, purity::iter_copies::<0, 6>(false));
 #[cfg(not(vcfg_x86none))]
 inst!(pur_iter_copies_rev_n0, [props=C16 xprops=C14 tier=quick cfg=x86std t=1500 role=iterator-copies uw=@RK;@TWNEW;@TWOFF;with_ranker:6;oracle:6;@PP;clone:6;from:6], 3, purity::iter_copies::<0, 6>(true));
 #[cfg(not(vcfg_x86none))]
-inst!(pur_iter_copies_fwd_n2, [props=C16 xprops=C14 tier=quick cfg=x86std t=1500 role=iterator-copies uw=@RK;@TWNEW;@TWOFF;with_ranker:6;oracle:6;@PP;clone:6;from:6], 3, purity::iter_copies::<2, 5>(false));
+inst!(pur_iter_copies_fwd_n2, [props=C16 xprops=C14 tier=thorough cfg=x86std t=1500 role=iterator-copies uw=@RK;@TWNEW;@TWOFF;with_ranker:6;oracle:6;@PP;clone:6;from:6], 3, purity::iter_copies::<2, 5>(false));
 #[cfg(not(vcfg_x86none))]
-inst!(pur_iter_copies_rev_n2, [props=C16 xprops=C14 tier=quick cfg=x86std t=1500 role=iterator-copies uw=@RK;@TWNEW;@TWOFF;with_ranker:6;oracle:6;@PP;clone:6;from:6], 3, purity::iter_copies::<2, 5>(true));
+inst!(pur_iter_copies_rev_n2, [props=C16 xprops=C14 tier=thorough cfg=x86std t=1500 role=iterator-copies uw=@RK;@TWNEW;@TWOFF;with_ranker:6;oracle:6;@PP;clone:6;from:6], 3, purity::iter_copies::<2, 5>(true));
 
 // ---------------------------------------------------------------------------
 // C14: exactness of the documented packed-pair panic
@@ -668,3 +680,12 @@ inst!(rank_n2_nosimd_rk, [props=C10+C03 xprops=C14 tier=quick cfg=generic t=1800
     finder_nondet_ranker::<2, 9>(0, 0, 9));
 inst!(rank_n2_nosimd_tw, [props=C10+C03 xprops=C14 tier=thorough cfg=generic t=7200 role=nondet-ranker-nosimd uw=@RK;@TW:2:17;with_ranker:6;oracle:6;find_prefilter.0:19;@MEMCHR], 3,
     finder_nondet_ranker::<2, 17>(0, 16, 17));
+
+#[cfg(not(vcfg_x86none))]
+inst!(pur_copies_fwd_n0, [props=C16 xprops=C14 tier=quick cfg=x86std t=1500 role=finder-copies uw=@RK;@TWNEW;@TWOFF;with_ranker:6;oracle:6;@PP;clone:6;from:6], 3, purity::copies::<0, 5>(1, false, 7));
+#[cfg(not(vcfg_x86none))]
+inst!(pur_copies_rev_n0, [props=C16 xprops=C14 tier=quick cfg=x86std t=1500 role=finder-copies uw=@RK;@TWNEW;@TWOFF;with_ranker:6;oracle:6;@PP;clone:6;from:6], 3, purity::copies::<0, 5>(1, true, 7));
+#[cfg(not(vcfg_x86none))]
+inst!(pur_owned_fwd_n2, [props=C16 xprops=C14 tier=quick cfg=x86std t=1500 role=finder-owned-outlives-needle uw=@RK;@TWNEW;@TWOFF;with_ranker:6;oracle:6;@PP;clone:6;from:6], 3, purity::copies::<2, 4>(1, false, 4));
+#[cfg(not(vcfg_x86none))]
+inst!(pur_clone_rev_n2, [props=C16 xprops=C14 tier=quick cfg=x86std t=1500 role=finder-clone uw=@RK;@TWNEW;@TWOFF;with_ranker:6;oracle:6;@PP;clone:6;from:6], 3, purity::copies::<2, 4>(1, true, 1));
